@@ -2,7 +2,7 @@
 from vmon import family as F
 from vmon import gen
 from vmon.run import Scenario
-from props import c10
+from props import c10, c13
 
 META = {
     "level": "exploration",
@@ -30,9 +30,18 @@ PROFILE = {"n_states": (2, 5), "n_events": (1, 3), "extra_transitions": (1, 5), 
 def make_case(rng, i):
     prof = dict(PROFILE)
     prof["async_mode"] = rng.choice(["none", "none", "all", "half", "one"])
+    mixin = rng.random() < 0.08
+    if mixin:
+        prof.update(providers=["sm", "model"], rtc=True, allow=False)
     spec = gen.gen_spec(rng, prof)
     sids = [s["id"] for s in spec["states"]]
-    if rng.random() < 0.4:
+    if mixin:
+        # MachineMixin listed first, next to a record class whose __init__ receives the stored state
+        c13.django_once()
+        spec["mixin"] = "first"
+        if "model" not in spec["providers"]:
+            spec["providers"].append("model")
+    if rng.random() < 0.4 and not mixin:
         c10.assign_values(rng, spec)     # falsy / typed state values (0, '', enum members, tuples)
     vx = lambda sid: c10.value_expr(spec, sid)  # noqa: E731
     c = {"op": "construct", "val": gen.gen_valuation(rng, spec)}
@@ -40,13 +49,13 @@ def make_case(rng, i):
     if r < 0.35:
         tgt = rng.choice(sids)
         c.update(stored=tgt, stored_expr=vx(tgt))
-    elif r < 0.55:
+    elif r < 0.55 and not mixin:
         tgt = rng.choice(sids)
         c.update(start=tgt, start_expr=vx(tgt))
     steps = [c]
     hist = gen.gen_history(rng, spec, rng.randint(3, 12), p_unknown=0.03)
     n_react = rng.choice([0, 0, 1, 2, 3])
-    n_restart = rng.choice([0, 1, 1, 2, 3])
+    n_restart = rng.choice([0, 1, 1, 2, 3]) if not mixin else 0
     marks = sorted([(rng.randint(0, len(hist)), "activate") for _ in range(n_react)]
                    + [(rng.randint(1, len(hist)), "restart") for _ in range(n_restart)])
     out = []
